@@ -190,12 +190,12 @@ class DampedOscillationMegacomplex(Megacomplex):
 
 @nb.jit(nopython=True, parallel=True)
 def calculate_damped_oscillation_matrix_no_irf(matrix, frequencies, rates, axis):
-    idx = 0
-    for frequency, rate in zip(frequencies, rates):
+    # the clp labels are all cosines followed by all sines
+    number_of_oscillations = len(frequencies)
+    for idx, (frequency, rate) in enumerate(zip(frequencies, rates)):
         osc = np.exp(-rate * axis - 1j * frequency * axis)
         matrix[:, idx] = osc.real
-        matrix[:, idx + 1] = osc.imag
-        idx += 2
+        matrix[:, idx + number_of_oscillations] = osc.imag
 
 
 def calculate_damped_oscillation_matrix_gaussian_irf_on_index(
